@@ -396,6 +396,27 @@ m("C13","stipend-to-dev-account","x/jklmint/keeper/mint.go",
 m("C13","mint-other-amount","x/jklmint/keeper/mint.go",
   'totalCoin := sdk.NewInt64Coin(denom, mintTokens)','totalCoin := sdk.NewInt64Coin(denom, mintedNum)',"C13/R1","minted=emission")
 
+# ---- C03
+m("C03","range-over-live-list","x/storage/keeper/rewards.go",
+  'for _, proof := range proofs { // manage all proofs in proof list','for _, proof := range file.Proofs { // manage all proofs in proof list',"C03/R1","range-mutated:UnifiedFile.Proofs","inverse of fix F2")
+m("C03","burn-then-credit","x/storage/keeper/rewards.go",
+  """		k.burnContract(ctx, providerAddress)
+		return
+	}""","""		k.burnContract(ctx, providerAddress)
+	}""","C03/R2","rewards:path-classes")
+m("C03","credit-without-proof","x/storage/keeper/rewards.go",
+  'if !proven && !file.IsYoung(currentHeight) { // if file wasn\'t proven, and is old, we burn it.','if !proven && !file.IsYoung(currentHeight) && found { // if file wasn\'t proven, and is old, we burn it.',"C03/R2","rewards:credit-guard")
+m("C03","burn-young-files","x/storage/keeper/rewards.go",
+  'if !proven && !file.IsYoung(currentHeight) { // if file wasn\'t proven, and is old, we burn it.','if !proven { // if file wasn\'t proven, and is old, we burn it.',"C03/R2","rewards:burn-guard")
+m("C03","proven-uses-start","x/storage/keeper/rewards.go",
+  'proven := file.ProvenLastBlock(currentHeight, proof.LastProven)','proven := file.ProvenLastBlock(currentHeight, file.Start)',"C03/R2","rewards:proven-arguments")
+m("C03","pay-from-module-balance","x/storage/keeper/rewards.go",
+  'coins := k.pullTokensFromGauges(ctx)','_ = k.pullTokensFromGauges(ctx)\n\tcoins := k.bankKeeper.GetAllBalances(ctx, k.accountKeeper.GetModuleAddress(types.ModuleName))',"C03/R4","paid-pool-is-pulled")
+m("C03","pay-fixed-share","x/storage/keeper/rewards.go",
+  'networkPercentage := providerValue.Quo(networkValue)','_ = networkValue\n\t\tnetworkPercentage := providerValue.Quo(providerValue)',"C03/R3","rewards:payout-amount")
+m("C03","double-burn","x/storage/keeper/rewards.go",
+  '		k.burnContract(ctx, providerAddress)\n		return','		k.burnContract(ctx, providerAddress)\n		k.burnContract(ctx, providerAddress)\n		return',"C03/R2","rewards:path-classes")
+
 for x in M:
     d = os.path.join(os.path.dirname(os.path.abspath(__file__)), x["property"])
     os.makedirs(d, exist_ok=True)
